@@ -374,3 +374,100 @@ func GenStallCase(r *vhlib.Rand, ru *Runner, rate int) {
 	ru.Exec("rdx settle")
 	ru.Close()
 }
+
+// GenIdleCase: no consumer at all; the idle prefetcher is the only requester.  Torrents in
+// every completion state around the idle budget (0, 1, 2, budget-1, budget, budget+1
+// incomplete pieces, some partially received), pieces that peers have / nobody has / a web
+// seed; real ticks; pieces complete, are evicted, complete again; at the end everything is
+// verified and the request set must be empty.
+func GenIdleCase(r *vhlib.Rand, ru *Runner, rate int) {
+	ps := r.PickInt(16384, 32768, 65536, 131072)
+	budget := int(float64(2*IdleRateForCases)*60/float64(ps) + 0.5)
+	if budget < 2 {
+		budget = 2
+	}
+	k := r.PickInt(0, 1, 2, budget-1, budget, budget+1) // incomplete pieces
+	if k < 0 {
+		k = 0
+	}
+	n := k + 1 + r.Intn(4)
+	if n > 12 {
+		n = 12
+		if k > n {
+			k = n
+		}
+	}
+	total := int64(n*ps - r.PickInt(0, 1, 9000))
+	web := r.Chance(35)
+	lay := fmt.Sprintf("s:%d", total)
+	if web {
+		lay += "+w"
+	}
+	ru.Exec(fmt.Sprintf("rd new %d %d %d %d %s", ps, total, r.Intn(1000), rate, lay))
+	if ru.S == nil {
+		return
+	}
+	n = ru.S.N
+	if web {
+		ru.Exec(fmt.Sprintf("rdx bys conf %d %d 1", r.Intn(3), r.Intn(2)))
+	}
+	perm := make([]int, n)
+	for i := range perm {
+		perm[i] = i
+	}
+	for i := n - 1; i > 0; i-- {
+		j := r.Intn(i + 1)
+		perm[i], perm[j] = perm[j], perm[i]
+	}
+	inc := map[int]bool{}
+	for _, i := range perm[:min(k, n)] {
+		inc[i] = true
+	}
+	for i := 0; i < n; i++ {
+		switch x := r.Intn(100); {
+		case x < 60:
+			ru.Exec(fmt.Sprintf("rdx bys phave %d 1", i)) // a peer has it
+		case x < 70:
+			ru.Exec(fmt.Sprintf("rdx bys phave %d 1", i))
+			ru.Exec(fmt.Sprintf("rdx bys phave %d 1", i))
+		}
+		if !inc[i] {
+			ru.Exec(fmt.Sprintf("rdx complete %d", i))
+		} else if r.Chance(30) && i%2 == 1 {
+			ru.Exec(fmt.Sprintf("rdx garbage %d", i)) // partially received (first block)
+		}
+	}
+	ru.Exec("rdx idle")
+	ru.Exec("rdx settle")
+	for step := 0; step < 4+r.Intn(6) && !Aborted.Load(); step++ {
+		i := r.Intn(n)
+		switch x := r.Intn(100); {
+		case x < 40:
+			ru.Exec(fmt.Sprintf("rdx complete %d", i))
+		case x < 55:
+			ru.Exec(fmt.Sprintf("rdx evict %d", i))
+		case x < 65:
+			ru.Exec(fmt.Sprintf("rdx bys phave %d %d", i, r.Intn(2)))
+		case x < 72:
+			ru.Exec(fmt.Sprintf("rdx bys conf %d %d %d", r.Intn(3), r.Intn(2), r.Intn(2)))
+		}
+		ru.Exec("rdx idle")
+		ru.Exec("rdx settle")
+	}
+	// everything arrives
+	for i := 0; i < n; i++ {
+		for try := 0; try < 3 && !ru.IsComplete(i); try++ {
+			ru.Exec(fmt.Sprintf("rdx complete %d", i))
+		}
+	}
+	ru.Exec("rdx idle")
+	ru.Exec("rdx settle")
+	ru.Exec("rdx idle")
+	ru.Exec("rdx settle")
+	ru.Close()
+}
+
+// IdleRateForCases is the idle download rate the harnesses configure (config.SetIdleRate):
+// with it the idle budget int(2*rate*60/ps+0.5) is 15, 8, 4, 2 pieces for 16, 32, 64, 128 KiB
+// pieces — small enough for the generated torrents to be around it.
+const IdleRateForCases = 2048
